@@ -25,6 +25,7 @@ RULE = (
     "oracle computed from the bytes alone: split on 0x0A, strip one CR, strict UTF-8, stdlib json, independent JSON-RPC grammar -> expected message sequence (and notification sub-sequence), "
     "plus a liveness probe line at the end; non-trivial = a cut falls inside a multi-byte character or inside CRLF, or a junk line sits between two valid lines, or a separator-like "
     "character occurs inside a JSON string; distinct = distinct (stream, cuts, delivery)"
+    "; round 8: one-shot per-request streams registered for the ids in the stream; the child already exited (return code known) while its output is still being read"
     "; added in rounds 6-7 of the seeded changes: junk lines that begin with a whole document; a line just below/above 1 and 4 MiB (thorough: 8, 16) in three read patterns"
 )
 ASSUMPTIONS = [
@@ -161,7 +162,7 @@ def _lenient_sig(extras: List[Any], info: List[Dict[str, Any]]) -> str:
     return sig
 
 
-def run_library(stream: bytes, cuts: List[int], as_str: bool, probe: bool) -> Dict[str, Any]:
+def run_library(stream: bytes, cuts: List[int], as_str: bool, probe: bool, req_streams: Optional[List[str]] = None, exited_after: Optional[int] = None) -> Dict[str, Any]:
     from chuk_mcp.transports.stdio.stdio_client import StdioClient
 
     procs: List[FakeProcess] = []
@@ -175,6 +176,9 @@ def run_library(stream: bytes, cuts: List[int], as_str: bool, probe: bool) -> Di
             async with client:
                 proc = procs[0]
                 read, _w = client.get_streams()
+                for rid in req_streams or []:
+                    # the application asked for a one-shot stream per request it has outstanding (answers go there AND to the read stream)
+                    client.new_request_stream(rid)
 
                 async def consume(src, dst):
                     try:
@@ -186,12 +190,16 @@ def run_library(stream: bytes, cuts: List[int], as_str: bool, probe: bool) -> Di
                 t1 = asyncio.ensure_future(consume(read, got))
                 t2 = asyncio.ensure_future(consume(client.notifications, notes))
                 pos = [0] + sorted(set(c for c in cuts if 0 < c < len(stream))) + [len(stream)]
-                for a, b in zip(pos, pos[1:]):
+                for k_, (a, b) in enumerate(zip(pos, pos[1:])):
                     chunk: Any = stream[a:b]
                     if as_str:
                         chunk = chunk.decode("utf-8")
                     proc.stdout.feed(chunk)
                     await asyncio.sleep(0.001)
+                    if exited_after is not None and k_ == exited_after % (len(pos) - 1):
+                        # the child has exited (and been reaped) while the rest of what it wrote still sits in the pipe
+                        proc.returncode = 0
+                        proc._exited.set()
                 if probe:
                     proc.stdout.feed(PROBE_LINE)
                 await asyncio.sleep(0.05)
@@ -246,7 +254,14 @@ def check(case: Dict[str, Any]) -> Outcome:
         out.nontrivial = True
     probe = not has_tail
     try:
-        r = run_library(stream, cuts, as_str, probe)
+        rs = None
+        if case.get("request_streams"):
+            rs = sorted({str(w_["id"]) for w_ in expected if isinstance(w_, dict) and w_.get("id") is not None})
+            out.classes = out.classes + ("per-request-streams-registered",)
+        if "exited_after" in case:
+            out.classes = out.classes + ("child-exited-with-output-still-in-the-pipe",)
+            out.nontrivial = True
+        r = run_library(stream, cuts, as_str, probe, rs, case.get("exited_after"))
     except Exception as e:  # noqa
         out.fail("stdio-client-raised", f"{type(e).__name__}: {e}")
         return out
@@ -380,7 +395,12 @@ def cases(draw, max_lines: int = 8):
     if interesting:
         pos = st.one_of(st.sampled_from(interesting), pos)
     cuts = draw(st.lists(pos, max_size=6, unique=True))
-    return {"stream": s, "cuts": sorted(cuts), "as_str": draw(st.integers(0, 5)) == 0}
+    case = {"stream": s, "cuts": sorted(cuts), "as_str": draw(st.integers(0, 5)) == 0}
+    if draw(st.integers(0, 3)) == 0:
+        case["request_streams"] = True
+    if draw(st.integers(0, 3)) == 0:
+        case["exited_after"] = draw(st.integers(0, 6))
+    return case
 
 
 def job_hyp(col: Collector, seed: int, tier: str, shard: int, n: int, max_lines: int = 8) -> None:
@@ -407,6 +427,18 @@ def job_exhaustive(col: Collector, seed: int, tier: str, shard: int, nshards: in
                     continue
                 case = {"stream": s, "cuts": list(cuts), "as_str": False}
                 col.record(case, check(case))
+    if shard == 0:
+        # answers for which the application registered one-shot streams, followed by more lines in the same read
+        note = b'{"jsonrpc":"2.0","method":"notifications/message","params":{"level":"info","data":"%d"}}\n'
+        fixed = (b'{"jsonrpc":"2.0","id":7,"result":{"ok":true}}\n' + note % 1 + note % 2 + b'{"jsonrpc":"2.0","id":"a","error":{"code":-1,"message":"e"}}\r\n' + note % 3
+                 + b'{"jsonrpc":"2.0","id":7,"method":"roots/list"}\n' + b'{"jsonrpc":"2.0","id":8,"result":{}}\n' + note % 4)
+        for cuts in [[]] + [[c] for c in range(1, len(fixed))] + [[c, c + 50] for c in range(1, len(fixed) - 50, 7)]:
+            case = {"stream": fixed, "cuts": cuts, "as_str": False, "request_streams": True}
+            col.record(case, check(case))
+            if len(cuts) == 1:
+                case = {"stream": fixed, "cuts": cuts, "as_str": False, "exited_after": 0}
+                col.record(case, check(case))
+        col.exhaustive_parts.append(f"a fixed {len(fixed)}-byte stream of answers with per-request streams registered, notifications behind each: no cut, every single cut, pairs of cuts")
     if shard == 0:
         col.exhaustive_parts.append(f"every cut-position set of size<={k} on {len(SHORT_STREAMS)} fixed streams of {[len(s) for s in SHORT_STREAMS]} bytes")
 
